@@ -567,3 +567,129 @@ def exec_reprpair(spec, env):
     outs.append(rt.outcome(lambda: roundtrip(b)))
     outs.append(rt.outcome(lambda: repr(a)))
     return outs
+
+
+# ------------------------------------------------------------------------------------------ iteration order (C18)
+
+ORDER_HOOK = [lambda mode: None]     # the symbolic engine installs a hook that switches set iteration between canonical and solver-chosen
+
+
+def _order_ops(sm, E, vs):
+    def shown_list(xs):
+        return Shown([x for x in xs])
+    return {
+        "eval": lambda e, p: e.at(p),
+        "fwd": lambda e, p: [sm.Partial(e, v).at(p) for v in vs],
+        "rev_all": lambda e, p: (lambda ld: [ld.component(v) for v in vs])(sm.LocatedDifferential(e, p)),
+        "diff_at_all": lambda e, p: (lambda ld: [ld.component(v) for v in vs])(sm.Differential(e).at(p)),
+        "diff_at_early_all": lambda e, p: (lambda ld: [ld.component(v) for v in vs])(sm.Differential(e, compute_early=True).at(p)),
+        "diff_comp_at_early": lambda e, p: (lambda d: [d.component_at(v, p) for v in vs])(sm.Differential(e, compute_early=True)),
+        "asexp_fwd": lambda e, p: shown_list([sm.Partial(e, v).as_expression() for v in vs]),
+        "asexp_rev": lambda e, p: (lambda d: shown_list([d.component(v).as_expression() for v in vs]))(sm.Differential(e, compute_early=True)),
+        "norm": lambda e, p: Shown(e._normalize()),
+        # (a Point prints its coordinates in the order they were written - that is its constructor call, see C13 - so it is not printed here)
+        "repr": lambda e, p: Shown([e, sm.Differential(e), sm.Partial(e, vs[0]), sm.Differential(e, compute_early=True)]),
+    }
+
+
+@concrete.register("order")
+def exec_order(spec, env):
+    """C18: the same operation with canonical set-iteration / coordinate order, then with a solver-chosen set-iteration order and a permuted
+    coordinate order (under the plain interpreter both runs are simply the real thing; different hash seeds are compared by the replay)"""
+    sm, E = rt.ns()
+    vs = rt.variables_of(spec["d"])
+    sup = spec.get("supplied", vs)
+    op = None
+    outs = []
+    for mode, order in (("canonical", sup), ("free", [sup[i] for i in spec.get("perm", range(len(sup)))])):
+        ORDER_HOOK[0](mode)
+        try:
+            e = rt.build(spec["d"], env, {})
+            p = sm.Point(**{n: env[n] for n in order})
+            op = _order_ops(sm, E, vs)[spec["op"]]
+            outs.append(rt.outcome(lambda: op(e, p)))
+        finally:
+            ORDER_HOOK[0]("canonical")
+    return outs
+
+
+
+# ------------------------------------------------------------------------------------------ termination of the rewriter (C11)
+
+class _Capture:
+    def __init__(self):
+        import logging
+        self.records = []
+        self.h = logging.Handler()
+        self.h.emit = lambda rec: self.records.append(rec.getMessage())
+        self.lg = logging.getLogger()
+
+    def __enter__(self):
+        self.lg.addHandler(self.h)
+        return self
+
+    def __exit__(self, *a):
+        self.lg.removeHandler(self.h)
+
+
+def nodes(expr):
+    return repr(expr).count("(")
+
+
+@concrete.register("reduce")
+def exec_reduce(spec, env):
+    """C11: iterate the rewriter step by step.  outs: [stepping outcome = list of printed forms, flags..., warning texts of a full _normalize()]"""
+    sm, E = rt.ns()
+    e0 = rt.build(spec["d"], env, {})
+    what = spec.get("input", "tree")
+    box = {}
+
+    def get_input():
+        if what == "tree":
+            return e0
+        v = spec.get("var", "x")
+        return e0._synthetic_partial(v)          # the unsimplified symbolic derivative (input of the simplifier inside as_expression())
+    oi = rt.outcome(lambda: box.setdefault("e", get_input()) and 0)
+    if oi["kind"] != "value":
+        return [oi]
+    e = box["e"]
+    size = nodes(e)
+    limit = spec.get("limit", 4 * size * size + 40)
+
+    def walk():
+        cur = e
+        forms = [repr(cur)]
+        steps = 0
+        while not cur._is_fully_reduced and steps < limit:
+            cur = cur._take_reduction_step()
+            steps += 1
+            forms.append(repr(cur))
+        box["final"] = cur
+        box["steps"] = steps
+        return forms
+    outs = [rt.outcome(walk)]
+    if outs[0]["kind"] != "value":
+        return outs
+    final = box["final"]
+    outs.append({"kind": "value", "value": [size, box["steps"], bool(final._is_fully_reduced)]})
+
+    # the final form must be rule-free: a freshly built equal copy is reduced without any rewriting
+    def fresh_copy_is_rule_free():
+        c = clone(final, sm, E)
+        seen = repr(c)
+        k = 0
+        while not c._is_fully_reduced and k < limit:
+            c = c._take_reduction_step()
+            k += 1
+            if repr(c) != seen:
+                return repr(c)
+        return True
+    outs.append(rt.outcome(fresh_copy_is_rule_free))
+    # the library's own driver: no 'unable to fully reduce' warning on small inputs, and its result is a fixed point
+    def full():
+        with _Capture() as cap:
+            n1 = clone(e, sm, E)._normalize() if spec.get("clone_input", True) else e._normalize()
+            n2 = n1._normalize()
+        return [list(cap.records), repr(n1), repr(n2)]
+    outs.append(rt.outcome(full))
+    return outs
